@@ -41,13 +41,7 @@ contract(Q,
          requires=semi_requires,
          ensures=lambda v, old, result: SP.fit_ensures(v, old, result, semi=True),
          modifies=["self.subgraph"],
-         hints=[("after:loop2", lambda v, old: [
-             ("no_gray", forall(0, length(v.self.subgraph.nodes), lambda x: ne(v.h.color[x], GRAY))),
-             ("all_black", forall(0, length(v.self.subgraph.nodes), lambda x: eq(v.h.color[x], BLACK))),
-             ("rank_inverse", forall(0, length(v.self.subgraph.nodes),
-                                     lambda x: conj(le(0, v.g_rank[x]), lt(v.g_rank[x], length(v.self.subgraph.idx_nodes)),
-                                                    eq(v.self.subgraph.idx_nodes[v.g_rank[x]], x)),
-                                     pats=lambda x: [v.g_rank[x], v.self.subgraph.nodes[x].cost]))])],
+         hints=[("after:loop2", SP.fit_exit_hints)],
          lemmas=[("before:h.cost[i] = 0", "cost_write", lambda v: {"h": v.h, "x": v.i}),
                  ("before:h.cost[i] = c.FLOAT_MAX", "cost_write", lambda v: {"h": v.h, "x": v.i}),
                  ("after:loop2", "inj_card", lambda v: {"f": v.self.subgraph.idx_nodes, "g": v.g_rank,
